@@ -37,11 +37,11 @@ theorem exists_cons_of_length_pos {α : Type} {l : List α} (h : 0 < l.length) :
 
 /-- `transition_from_warmup` from a full warm-up state (k+1 items in H, all inputs) -/
 theorem transition_spec (s : Sk Rat) (ins : List E) (ds : Draws Rat)
-    (hk : 1 ≤ s.k) (hM : s.M = []) (_hR : s.R = []) (hst : s.mStale = false) (hn : s.n = ins.length)
+    (hk : 1 ≤ s.k) (hM : s.M = []) (_hR : s.R = []) (hst : s.mStale = false)
     (hlen : s.H.length = s.k + 1) (hperm : ins.Perm s.H) (hpos : ∀ e ∈ ins, 0 < e.wt)
     (hmk : MarksOK s.gadget s.numMarksInH s.H) :
-    ∃ s' ds' L', transitionFromWarmup s ds = (s', ds') ∧ Inv s' ins L' ∧ s'.R ≠ [] ∧
-      s'.k = s.k ∧ s'.gadget = s.gadget ∧ s'.rf = s.rf := by
+    ∃ s' ds' L', transitionFromWarmup s ds = (s', ds') ∧ Inv0 s' ins L' ∧ s'.R ≠ [] ∧
+      s'.k = s.k ∧ s'.gadget = s.gadget ∧ s'.rf = s.rf ∧ s'.n = s.n := by
   -- heapify
   have hp1 := convertToHeap_perm s.H
   have hh1 := convertToHeap_heap s.H
@@ -115,12 +115,12 @@ theorem transition_spec (s : Sk Rat) (ins : List E) (ds : Draws Rat)
       have := hmin1 e (hsub2 e (hsub3 e he))
       simpa using this
     · push_cast; linarith
-  obtain ⟨s', ds', L', hg, hinv, hne, _, hk', hg', hrf'⟩ :=
+  obtain ⟨s', ds', L', hg, hinv, hne, _, hk', hg', hrf', hn'⟩ :=
     growCandidateSet_spec
       { s with H := heapPopRest (e2 :: t2), M := [e2], R := [e1.item], totalWtR := e1.wt,
                numMarksInH := popCount s.gadget (popCount s.gadget s.numMarksInH e1) e2 }
-      [e1] ins (e2.wt + e1.wt) 2 e1.wt 1 ds hmid hmk3 hk hst hn
-  exact ⟨s', ds', L', hg, hinv, hne, hk', hg', hrf'⟩
+      [e1] ins (e2.wt + e1.wt) 2 e1.wt 1 ds hmid hmk3 hk hst
+  exact ⟨s', ds', L', hg, hinv, hne, hk', hg', hrf', hn'⟩
 
 /-- the entry stored for `update(item, w, mark)` -/
 def mkEntry (s : Sk Rat) (item : Int) (w : Rat) (mark : Bool) : E := { item := item, wt := w, mark := storedMark s mark }
@@ -138,11 +138,11 @@ theorem EstInv.tau_le {s : Sk Rat} {L : List E} (h : EstInv s L) (hr : s.R ≠ [
   rw [div_le_iff₀ hr0]
   exact h.hHeavy e he
 
-theorem updateDispatch_spec (s : Sk Rat) (ins L : List E) (hinv : Inv0 s ins L) (hn : s.n = ins.length + 1)
+theorem updateDispatch_spec (s : Sk Rat) (ins L : List E) (hinv : Inv0 s ins L)
     (item : Int) (w : Rat) (mark : Bool) (ds : Draws Rat)
     (hw : 0 < w) (hmg : mark = true → s.gadget = true) :
-    ∃ s' ds' L', updateDispatch s item w mark ds = some (s', ds') ∧ Inv s' (mkEntry s item w mark :: ins) L' ∧
-      s'.k = s.k ∧ s'.gadget = s.gadget ∧ s'.rf = s.rf ∧
+    ∃ s' ds' L', updateDispatch s item w mark ds = some (s', ds') ∧ Inv0 s' (mkEntry s item w mark :: ins) L' ∧
+      s'.k = s.k ∧ s'.gadget = s.gadget ∧ s'.rf = s.rf ∧ s'.n = s.n ∧
       (s.R ≠ [] → s'.R ≠ [] ∧ s.totalWtR * (s'.R.length : Rat) ≤ s'.totalWtR * (s.R.length : Rat)) := by
   have hpos' : ∀ e ∈ mkEntry s item w mark :: ins, 0 < e.wt := by
     intro e he
@@ -150,11 +150,10 @@ theorem updateDispatch_spec (s : Sk Rat) (ins L : List E) (hinv : Inv0 s ins L) 
     · exact hw
     · exact hinv.pos e h
   have hm0 : s.m = 0 := by simp [Sk.m, hinv.mnil, hinv.fresh]
-  have hn' : s.n = (mkEntry s item w mark :: ins).length := by simp [hn]
   unfold updateDispatch
   by_cases hR : s.R = []
   · -- warm-up
-    obtain ⟨hL, hhk⟩ := hinv.warm hR
+    obtain ⟨hL, hhk, hW0⟩ := hinv.warm hR
     subst hL
     have hrl : s.R.length = 0 := by rw [hR]; rfl
     simp only [hrl, beq_self_eq_true, if_true]
@@ -180,22 +179,22 @@ theorem updateDispatch_spec (s : Sk Rat) (ins L : List E) (hinv : Inv0 s ins L) 
     · -- the (k+1)-th item: transition to estimation mode
       have hlen : (s.H ++ [mkEntry s item w mark]).length = s.k + 1 := by simp; omega
       simp only [List.length_append, List.length_cons, List.length_nil, htr, decide_true, if_true]
-      obtain ⟨s', ds', L', ht, hinv', hne, hk', hg', hrf'⟩ := transition_spec
+      obtain ⟨s', ds', L', ht, hinv', hne, hk', hg', hrf', hnn⟩ := transition_spec
         { s with H := s.H ++ [mkEntry s item w mark],
                  numMarksInH := s.numMarksInH + (if mark then 1 else 0),
                  alloc := if s.H.length ≥ s.alloc then grownAlloc s.k s.rf s.alloc else s.alloc }
-        (mkEntry s item w mark :: ins) ds hinv.kpos hinv.mnil hR hinv.fresh hn' hlen hperm' hpos' hmk'
-      refine ⟨s', ds', L', ?_, hinv', hk', hg', hrf', fun h => absurd hR h⟩
+        (mkEntry s item w mark :: ins) ds hinv.kpos hinv.mnil hR hinv.fresh hlen hperm' hpos' hmk'
+      refine ⟨s', ds', L', ?_, hinv', hk', hg', hrf', hnn, fun h => absurd hR h⟩
       simp only [mkEntry] at ht ⊢
       rw [ht]
     · simp only [List.length_append, List.length_cons, List.length_nil, htr, decide_false, Bool.false_eq_true, if_false]
-      refine ⟨_, ds, [], rfl, ?_, rfl, rfl, rfl, fun h => absurd hR h⟩
-      refine { kpos := hinv.kpos, mnil := hinv.mnil, fresh := hinv.fresh, n_eq := hn',
+      refine ⟨_, ds, [], rfl, ?_, rfl, rfl, rfl, rfl, fun h => absurd hR h⟩
+      refine { kpos := hinv.kpos, mnil := hinv.mnil, fresh := hinv.fresh,
                perm := ?_, pos := hpos', marks := hmk', warm := ?_, est := fun h => absurd hR h }
       · show (mkEntry s item w mark :: ins).Perm ((s.H ++ [mkEntry s item w mark]) ++ [])
         rw [List.append_nil]; exact hperm'
       · intro _
-        refine ⟨rfl, ?_⟩
+        refine ⟨rfl, ?_, hW0⟩
         show (s.H ++ [mkEntry s item w mark]).length ≤ s.k
         simp only [List.length_append, List.length_cons, List.length_nil]; omega
   · -- estimation mode
@@ -260,10 +259,10 @@ theorem updateDispatch_spec (s : Sk Rat) (ins L : List E) (hinv : Inv0 s ins L) 
           have : s.totalWtR * (s.R.length : Rat) ≤ (s.totalWtR + w) * (s.R.length : Rat) :=
             mul_le_mul_of_nonneg_right (by linarith) (le_of_lt hr0)
           linarith
-      obtain ⟨s', ds', L', hg, hinv', hne, htau, hk', hg', hrf'⟩ := growCandidateSet_spec
+      obtain ⟨s', ds', L', hg, hinv', hne, htau, hk', hg', hrf', hnn⟩ := growCandidateSet_spec
         { s with M := [mkEntry s item w mark] } L (mkEntry s item w mark :: ins) (s.totalWtR + w) (s.R.length + 1)
-        s.totalWtR s.R.length ds hmid hinv.marks hinv.kpos hinv.fresh hn'
-      refine ⟨s', ds', L', ?_, hinv', hk', hg', hrf', fun _ => ⟨hne, htau⟩⟩
+        s.totalWtR s.R.length ds hmid hinv.marks hinv.kpos hinv.fresh
+      refine ⟨s', ds', L', ?_, hinv', hk', hg', hrf', hnn, fun _ => ⟨hne, htau⟩⟩
       simp only [mkEntry, Num.add_rat] at hg ⊢
       rw [hg]
     · -- heavy item
@@ -350,13 +349,13 @@ theorem updateDispatch_spec (s : Sk Rat) (ins L : List E) (hinv : Inv0 s ins L) 
             simp at hm; subst hm
             exact hmin1 e (hpp.subset (List.mem_cons_of_mem _ he))
           · push_cast; rw [hr1c]; linarith
-        obtain ⟨s', ds', L', hg, hinv', hne, htau, hk', hg', hrf'⟩ := growCandidateSet_spec
+        obtain ⟨s', ds', L', hg, hinv', hne, htau, hk', hg', hrf', hnn⟩ := growCandidateSet_spec
           { s with H := heapPopRest (r1 :: t1), M := [r1],
                    numMarksInH := popCount s.gadget (if s.gadget && mark then s.numMarksInH + 1 else s.numMarksInH) r1 }
           L (mkEntry s item w mark :: ins) (r1.wt + s.totalWtR) 2 s.totalWtR s.R.length ds hmid
-          (marksOK_pop (hH1 ▸ hpush_marks)) hinv.kpos hinv.fresh hn'
+          (marksOK_pop (hH1 ▸ hpush_marks)) hinv.kpos hinv.fresh
         rw [hr1] at htau
-        refine ⟨s', ds', L', ?_, hinv', hk', hg', hrf', fun _ => ⟨hne, htau⟩⟩
+        refine ⟨s', ds', L', ?_, hinv', hk', hg', hrf', hnn, fun _ => ⟨hne, htau⟩⟩
         simp only [Num.add_rat] at hg ⊢
         rw [hg]
       · -- r >= 2: push, candidates are R only
@@ -380,22 +379,32 @@ theorem updateDispatch_spec (s : Sk Rat) (ins L : List E) (hinv : Inv0 s ins L) 
                      numMarksInH := if s.gadget && mark then s.numMarksInH + 1 else s.numMarksInH } := by
           rw [hpushH]; have := hinv.mnil; cases s; simp_all
         rw [hpushH']
-        obtain ⟨s', ds', L', hg, hinv', hne, htau, hk', hg', hrf'⟩ := growCandidateSet_spec
+        obtain ⟨s', ds', L', hg, hinv', hne, htau, hk', hg', hrf', hnn⟩ := growCandidateSet_spec
           { s with H := heapPush s.H (mkEntry s item w mark), M := [],
                    numMarksInH := if s.gadget && mark then s.numMarksInH + 1 else s.numMarksInH }
           L (mkEntry s item w mark :: ins) s.totalWtR s.R.length s.totalWtR s.R.length ds hmid
-          hpush_marks hinv.kpos hinv.fresh hn'
-        exact ⟨s', ds', L', by rw [hg], hinv', hk', hg', hrf', fun _ => ⟨hne, htau⟩⟩
+          hpush_marks hinv.kpos hinv.fresh
+        exact ⟨s', ds', L', by rw [hg], hinv', hk', hg', hrf', hnn, fun _ => ⟨hne, htau⟩⟩
+
+/-- `update` from a state satisfying the counter-free invariant (used for union gadget copies whose `n_` is the
+    union's counter) -/
+theorem update0_spec (s : Sk Rat) (ins L : List E) (hinv : Inv0 s ins L) (item : Int) (w : Rat) (mark : Bool) (ds : Draws Rat)
+    (hw : 0 < w) (hmg : mark = true → s.gadget = true) :
+    ∃ s' ds' L', update s item w mark ds = some (s', ds') ∧ Inv0 s' (mkEntry s item w mark :: ins) L' ∧
+      s'.k = s.k ∧ s'.gadget = s.gadget ∧ s'.rf = s.rf ∧ s'.n = s.n + 1 ∧
+      (s.R ≠ [] → s'.R ≠ [] ∧ s.totalWtR * (s'.R.length : Rat) ≤ s'.totalWtR * (s.R.length : Rat)) := by
+  have hvalid : validWeight w = true := by simp [validWeight, not_lt.mpr (le_of_lt hw)]
+  have hne0 : Num.eq w (Num.zero : Rat) = false := by simp [ne_of_gt hw]
+  unfold update
+  simp only [hvalid, hne0, Bool.not_true, Bool.false_eq_true, if_false]
+  exact updateDispatch_spec { s with n := s.n + 1 } ins L (hinv.setN _) item w mark ds hw hmg
 
 theorem update_spec (s : Sk Rat) (ins L : List E) (hinv : Inv s ins L) (item : Int) (w : Rat) (mark : Bool) (ds : Draws Rat)
     (hw : 0 < w) (hmg : mark = true → s.gadget = true) :
     ∃ s' ds' L', update s item w mark ds = some (s', ds') ∧ Inv s' (mkEntry s item w mark :: ins) L' ∧
       s'.k = s.k ∧ s'.gadget = s.gadget ∧ s'.rf = s.rf ∧
       (s.R ≠ [] → s'.R ≠ [] ∧ s.totalWtR * (s'.R.length : Rat) ≤ s'.totalWtR * (s.R.length : Rat)) := by
-  have hvalid : validWeight w = true := by simp [validWeight, not_lt.mpr (le_of_lt hw)]
-  have hne0 : Num.eq w (Num.zero : Rat) = false := by simp [ne_of_gt hw]
-  unfold update
-  simp only [hvalid, hne0, Bool.not_true, Bool.false_eq_true, if_false]
-  exact updateDispatch_spec { s with n := s.n + 1 } ins L (hinv.toInv0.setN _) (by simp [hinv.n_eq]) item w mark ds hw hmg
+  obtain ⟨s', ds', L', h1, h2, h3, h4, h5, h6, h7⟩ := update0_spec s ins L hinv.toInv0 item w mark ds hw hmg
+  exact ⟨s', ds', L', h1, { toInv0 := h2, n_eq := by rw [h6, hinv.n_eq]; simp }, h3, h4, h5, h7⟩
 
 end DS.VarOpt
